@@ -35,6 +35,7 @@ TECHNIQUE = "property-based testing: validity predicate (json_plain + stdlib jso
 LEVEL_TEXT = ("Exploration over generated annotations and values, including subclass instances that exercise every "
               "'cast to the plain type' path; each marshalled result is checked class-exactly, for aliasing with the "
               "input and for determinism.")
+RULE_EXTRA = "two values per program also go through fail - repair in place - retry; the second call of 'same on every call' takes another route (function / routine object / codec step)"
 LEVEL_NOTE = "trusts the stdlib json encoder as the judge of JSON compatibility"
 
 
